@@ -112,6 +112,7 @@ class FakeMultiTherm:
         self.faults = faults or FaultPlan()
         self.log = []
         self.last_curv = {}
+        self.last_beta = {}
 
     def _pp(self, phase, name):
         v = self.per_phase.get(phase, {}).get(name, getattr(self, name))
@@ -156,7 +157,12 @@ class FakeMultiTherm:
 
     def impingementFactor(self, x, T, precPhase=None, removeCache=False, searchDir=None):
         self.log.append(("impingementFactor", float(T)))
-        return self._pp(precPhase, "beta")
+        # the real backend answers a failed equilibrium with the impingement factor of the previous successful calculation, and with
+        # None when there has been none yet (MulticomponentThermodynamics.impingementFactor / _curvature_outputs)
+        if self.faults.hit("impingement"):
+            return self.last_beta.get(precPhase)
+        self.last_beta[precPhase] = self._pp(precPhase, "beta")
+        return self.last_beta[precPhase]
 
     def getInterdiffusivity(self, x, T, removeCache=True, phase=None):
         return 1e-17 * np.eye(2)
